@@ -784,10 +784,20 @@ write_constant_value (const gchar *namespace,
       xml_printf (file, "%" G_GUINT64_FORMAT, value->v_uint64);
       break;
     case GI_TYPE_TAG_FLOAT:
-      xml_printf (file, "%f", (double)value->v_float);
+      {
+        gchar buf[G_ASCII_DTOSTR_BUF_SIZE];
+
+        g_ascii_formatd (buf, sizeof (buf), "%.9g", (double)value->v_float);
+        xml_printf (file, "%s", buf);
+      }
       break;
     case GI_TYPE_TAG_DOUBLE:
-      xml_printf (file, "%f", value->v_double);
+      {
+        gchar buf[G_ASCII_DTOSTR_BUF_SIZE];
+
+        g_ascii_dtostr (buf, sizeof (buf), value->v_double);
+        xml_printf (file, "%s", buf);
+      }
       break;
     case GI_TYPE_TAG_UTF8:
     case GI_TYPE_TAG_FILENAME:
